@@ -344,7 +344,7 @@ def run(chk):
     chk.prepare(need_cli=True)
     if not chk.harness_ok:
         return
-    n = 600 if chk.tier == 'quick' else 12000
+    n = 1200 if chk.tier == 'quick' else 15000
     cases = gen_cases(chk, n)
     judge(chk, cases)
     corr, front_bad = [], []
